@@ -1089,3 +1089,203 @@ Proof.
         apply gr_grh, (fr_gr _ None). frm.
     + apply gr_grh. eapply fr_gr. eapply hcm_other_fr; eauto.
 Qed.
+
+(* ------------------------------------------------------------------ *)
+(* Pump, quiesce, every operation                                      *)
+
+Lemma error_close_gr : forall E w h e, Gr E w (error_close w h e).
+Proof. intros. eapply fr_gr. apply error_close_fr. Qed.
+
+Lemma handle_action_gr : forall w h c a r,
+  handle_action w h c a = Ok r -> Gr (replay_of w) w (r_world r).
+Proof. intros. eapply fr_gr, fr_all_hist, handle_action_fr. eauto. Qed.
+
+Lemma run_batch_gr : forall q w h r, run_batch q w h = Ok r -> Gr (replay_of w) w (r_world r).
+Proof.
+  induction q as [|a q IH]; intros w h r H; cbn [run_batch] in H.
+  - finish_ok H. apply gr_refl.
+  - destruct (get_client w h) as [c|] eqn:Ec; [|finish_ok H; apply gr_refl].
+    destruct (handle_action w h c a) as [res|] eqn:Ea; [|discriminate].
+    pose proof (handle_action_gr _ _ _ _ _ Ea) as G1.
+    destruct (r_err res) eqn:Ee; try (inversion H; subst; exact G1).
+    eapply gr_trans; [exact G1|].
+    eapply gr_mono; [|eapply IH; exact H].
+    intros x Hx. eapply replay_of_same; [|exact Hx]. apply G1.
+Qed.
+
+Lemma step_pump_gr : forall w h w' r, step_pump w h = Running w' r -> Gr (replay_of w) w w'.
+Proof.
+  intros w h w' r H. unfold step_pump in H.
+  destruct (get_client w h) as [c|] eqn:Ec; [|inversion H; subst; apply gr_refl].
+  destruct (c_closed c); [inversion H; subst; apply gr_refl|].
+  cbv zeta in H. unfold finish in H.
+  destruct (run_batch _ _ _) as [res|] eqn:Eb; [|discriminate].
+  apply run_batch_gr in Eb.
+  assert (G0 : Gr (replay_of w) w (r_world res)).
+  { eapply (gr_trans _ _ (upd w h (fun c => set_queue c [])));
+      [eapply (fr_gr _ None); apply fr_upd_pres; intro; reflexivity|].
+    eapply gr_mono; [|exact Eb]. intros x Hx. eapply replay_of_same; [|exact Hx].
+    intro g. reflexivity. }
+  destruct (r_err res); inversion H; subst; try exact G0;
+    (eapply gr_trans; [exact G0 | apply error_close_gr]).
+Qed.
+
+Lemma pump_round_gr : forall hs w w', pump_round hs w = Some w' -> Gr (replay_of w) w w'.
+Proof.
+  induction hs as [|h hs IH]; intros w w' H; cbn [pump_round] in H.
+  - inversion H; subst. apply gr_refl.
+  - destruct (get_client w h) as [c|]; [|apply IH; exact H].
+    destruct (runnable c); [|apply IH; exact H].
+    destruct (step_pump w h) as [w1 r1|] eqn:Es; [|discriminate].
+    apply step_pump_gr in Es. eapply gr_trans; [exact Es|].
+    eapply gr_mono; [|apply IH; exact H].
+    intros x Hx. eapply replay_of_same; [|exact Hx]. apply Es.
+Qed.
+
+Lemma quiesce_gr : forall fuel w w', quiesce fuel w = Some w' -> Gr (replay_of w) w w'.
+Proof.
+  induction fuel as [|f IH]; intros w w' H; cbn [quiesce] in H.
+  - inversion H; subst. apply gr_refl.
+  - destruct (existsb runnable (w_clients w)); [|inversion H; subst; apply gr_refl].
+    destruct (pump_round _ w) as [w1|] eqn:Ep; [|discriminate].
+    apply pump_round_gr in Ep. eapply gr_trans; [exact Ep|].
+    eapply gr_mono; [|apply IH; exact H].
+    intros x Hx. eapply replay_of_same; [|exact Hx]. apply Ep.
+Qed.
+
+(* one operation: every outbox is extended (or emptied by a drain) by
+   messages that are server-generated, not chat-like, a replay of a stored
+   entry, or the forwarding of the message just read with the checked
+   fields; every history entry is an old one or the broadcast chat just read *)
+Theorem step_prov : forall w o w' r, MInv w -> step w o = Running w' r ->
+  (forall i, (exists l, out_of w' i = out_of w i ++ l /\ Forall (okE (StepE w o)) l) \/
+             out_of w' i = []) /\
+  (forall g e, In e (hist_of w' g) -> In e (hist_of w g) \/ StepH w o g e).
+Proof.
+  intros w o w' r Hi H.
+  assert (Hgr : forall E, Gr E w w' ->
+            (forall x, E x -> StepE w o x) ->
+            (forall i, (exists l, out_of w' i = out_of w i ++ l /\ Forall (okE (StepE w o)) l) \/
+                       out_of w' i = []) /\
+            (forall g e, In e (hist_of w' g) -> In e (hist_of w g) \/ StepH w o g e)).
+  { intros E [Hh Ho] HE. split.
+    - intro i. left. apply (og_mono E _ w w' HE Ho).
+    - intros g e He. rewrite Hh in He. left. exact He. }
+  destruct o; cbn [step] in H.
+  - (* mkgroup *)
+    apply (Hgr none); [|intros x []].
+    destruct (find_group w name) eqn:Ef; inversion H; subst; [apply gr_refl|].
+    split; [|apply og_refl]. intro g. unfold hist_of, find_group in *. cbn [w_groups wset_groups].
+    destruct (find_group_in (w_groups w) g) eqn:Eg.
+    + erewrite find_group_in_app_some by exact Eg. reflexivity.
+    + rewrite find_group_in_app_none by exact Eg. cbn [g_name]. destruct (String.eqb name g); reflexivity.
+  - (* client *)
+    inversion H; subst. split.
+    + intro i. left. exists []. rewrite app_nil_r. split; [|constructor].
+      unfold out_of, get_client. cbn [w_clients wset_clients].
+      destruct (Nat.lt_ge_cases i (List.length (w_clients w))) as [Hl|Hl].
+      * rewrite nth_error_app1 by exact Hl. reflexivity.
+      * rewrite nth_error_app2 by exact Hl.
+        assert (Hn : nth_error (w_clients w) i = None) by (apply nth_error_None; exact Hl).
+        rewrite Hn. destruct (i - List.length (w_clients w)) as [|k]; cbn; [reflexivity|].
+        destruct k; reflexivity.
+    + intros g e He. left. exact He.
+  - (* a message *)
+    unfold step_msg in H.
+    destruct (get_client w h) as [c|] eqn:Ec;
+      [|inversion H; subst; apply (Hgr none); [apply gr_refl | intros x []]].
+    destruct (c_closed c) eqn:Ecl;
+      [inversion H; subst; apply (Hgr none); [apply gr_refl | intros x []]|].
+    unfold finish in H.
+    destruct (handle_client_message w h c m) as [res|] eqn:Eh; [|discriminate].
+    pose proof (hcm_prov w h c m res Hi Ec Ecl Eh) as G.
+    assert (G' : GrH (StepE w (OpMsg h m)) (StepH w (OpMsg h m)) w w').
+    { destruct (r_err res); inversion H; subst; try exact G;
+        (eapply grh_trans; [exact G | apply gr_grh, error_close_gr]). }
+    destruct G' as [Gh Go]. split; [intro i; left; apply Go | exact Gh].
+  - (* pump *)
+    apply (Hgr (replay_of w)); [eapply step_pump_gr; exact H | intros x Hx; left; exact Hx].
+  - (* disconnect *)
+    unfold step_disconnect in H. apply (Hgr none); [|intros x []].
+    destruct (get_client w h) as [c|]; [|inversion H; subst; apply gr_refl].
+    destruct (c_closed c); inversion H; subst; [apply gr_refl | apply error_close_gr].
+  - (* quiesce *)
+    destruct (quiesce 1000 w) as [w1|] eqn:Eq; [|discriminate]. inversion H; subst.
+    apply (Hgr (replay_of w)); [eapply quiesce_gr; exact Eq | intros x Hx; left; exact Hx].
+  - (* drain *)
+    destruct (get_client w h) as [c|] eqn:Ec; inversion H; subst.
+    + split; [|intros g e He; left; exact He].
+      intro i. rewrite out_of_upd. destruct (Nat.eqb_spec i h).
+      * right. subst. rewrite Ec. reflexivity.
+      * left. exists []. rewrite app_nil_r. auto.
+    + apply (Hgr none); [apply gr_refl | intros x []].
+Qed.
+
+(* ------------------------------------------------------------------ *)
+(* Provenance over ALL operation sequences                             *)
+
+(* the message m was read from connection h in the state reached by a
+   prefix of the history, and P holds of that state *)
+Definition sent_in (ops : list op) (P : world -> nat -> client -> msg -> Prop) : Prop :=
+  exists ops1 h m ops2 w1 c,
+    ops = ops1 ++ OpMsg h m :: ops2 /\ reach ops1 w1 /\
+    get_client w1 h = Some c /\ c_closed c = false /\ P w1 h c m.
+
+Lemma sent_in_snoc : forall ops o P, sent_in ops P -> sent_in (ops ++ [o]) P.
+Proof.
+  intros ops o P (ops1 & h & m & ops2 & w1 & c & -> & H).
+  exists ops1, h, m, (ops2 ++ [o]), w1, c. split; [|exact H].
+  rewrite <- app_assoc. reflexivity.
+Qed.
+
+(* a forwarded chat / usermessage: source and username were checked against
+   the sender's own id and username, the sender was a member holding the
+   permission, and the privileged flag is "the sender held op" *)
+Definition forwarded (x : outmsg) : world -> nat -> client -> msg -> Prop :=
+  fun w h c m =>
+    chat_type m /\ authentic_fields c m /\ (exists g, c_group c = Some g) /\
+    mem (chat_perm m) (c_perms c) = true /\ x = chat_out c m.
+
+(* a stored entry: a broadcast message of type chat of a member of g *)
+Definition stored (g : str) (e : chatentry) : world -> nat -> client -> msg -> Prop :=
+  fun w h c m =>
+    m_type m = "chat" /\ m_dest m = "" /\ authentic_fields c m /\ c_group c = Some g /\
+    mem (chat_perm m) (c_perms c) = true /\ e = chat_entry m.
+
+Definition msg_prov (ops : list op) (x : outmsg) : Prop :=
+  server_ok x = true \/
+  sent_in ops (forwarded x) \/
+  (exists g e, sent_in ops (stored g e) /\ x = out_chathistory e).
+
+Theorem provenance : forall ops w, reach ops w ->
+  (forall i x, In x (out_of w i) -> msg_prov ops x) /\
+  (forall g e, In e (hist_of w g) -> sent_in ops (stored g e)).
+Proof.
+  induction ops as [|o ops IH] using rev_ind; intros w H.
+  - unfold reach in H. cbn in H. inversion H; subst. split.
+    + intros i x Hx. unfold out_of, get_client in Hx. cbn in Hx. destruct i; destruct Hx.
+    + intros g e He. destruct He.
+  - apply reach_snoc in H. destruct H as (w0 & r & H0 & Hs).
+    destruct (IH w0 H0) as [IHo IHh].
+    destruct (step_prov w0 o w r (reach_minv _ _ H0) Hs) as [So Sh].
+    assert (Hst : forall g e, StepH w0 o g e -> sent_in (ops ++ [o]) (stored g e)).
+    { intros g e (h & m & c & -> & Hc & Hcl & Ht & Hd & Ha & Hg & Hp & He).
+      exists ops, h, m, [], w0, c. repeat split; auto; apply Ha. }
+    assert (Hh : forall g e, In e (hist_of w g) -> sent_in (ops ++ [o]) (stored g e)).
+    { intros g e He. destruct (Sh g e He) as [Hold|Hnew].
+      - apply sent_in_snoc. apply IHh. exact Hold.
+      - apply Hst. exact Hnew. }
+    split; [|exact Hh].
+    intros i x Hx. destruct (So i) as [(l & Hl & Hf) | Hnil]; [|rewrite Hnil in Hx; destruct Hx].
+    rewrite Hl in Hx. apply in_app_or in Hx. destruct Hx as [Hx|Hx].
+    + destruct (IHo i x Hx) as [A|[A|(g & e & A & ->)]].
+      * left. exact A.
+      * right. left. apply sent_in_snoc. exact A.
+      * right. right. exists g, e. split; [apply sent_in_snoc; exact A | reflexivity].
+    + rewrite Forall_forall in Hf. destruct (Hf x Hx) as [A|[A|A]].
+      * left. exact A.
+      * destruct A as (g & e & He & ->). right. right. exists g, e. split; [|reflexivity].
+        apply sent_in_snoc. apply IHh. exact He.
+      * destruct A as (h & m & c & -> & Hc & Hcl & Ht & Ha & Hg & Hp & ->).
+        right. left. exists ops, h, m, [], w0, c. repeat split; auto; apply Ha.
+Qed.
